@@ -164,6 +164,18 @@ def cause_of(ev, p, q, kind, detail=None):
             parts.append("loop-lo-eq-hi")
     if op in ("join_loops", "replace", "std.replace_all", "std.replace_all_stmts", "fuse"):
         parts.append(_body_len_feature(ev, p_ir, blk))
+    if spec and (any(a == "orelse" for a, _ in spec["p"]) or spec.get("attr") == "orelse"):
+        parts.append("target-in-else-branch")
+        try:
+            if p.has_dup():
+                parts.append("source-has-shared-nodes")
+        except Exception:
+            pass
+    if op == "bind_expr" and spec and spec["p"] and spec["p"][-1][0] == "args":
+        parts.append("binds-call-argument")
+    if op in ("write_config", "bind_config", "delete_config") and spec:
+        if _enclosing_loop(p_ir, {"p": list(spec["p"]) + [["x", 0]]}) is not None:
+            parts.append("inside-loop")
     if op == "divide_with_recompute":
         a = ev.get("a", [])
         if len(a) >= 2 and isinstance(a[1], str) and "/" in a[1]:
